@@ -89,6 +89,9 @@ func (o Op) String() string {
 	case "lockdel":
 		return fmt.Sprintf("LockAndSuperfluidDelegate(%s,val%d)", o.A, o.V)
 	case "lock":
+		if o.X > 1 {
+			return fmt.Sprintf("LockTokens(%s,topup-amount,%dx unbonding-duration)", o.A, o.X)
+		}
 		return fmt.Sprintf("LockTokens(%s,topup-amount,unbonding-duration)", o.A)
 	case "del":
 		return fmt.Sprintf("SuperfluidDelegate(lock#%d,val%d)", o.P, o.V)
@@ -657,7 +660,13 @@ func (w *World) Apply(ctx sdk.Context, l *Ledger, op Op, fail func(a, s, d strin
 		w.Vac[fmt.Sprintf("validator%d_used", op.V)]++
 	case "lock":
 		amt := mustInt(w.Cfg.TopUp)
-		r := core.Deliver(a, ctx, &lockuptypes.MsgLockTokens{Owner: core.Acc(op.A).String(), Duration: w.U, Coins: sdk.NewCoins(w.shareCoin(amt))})
+		// X > 1: a lock X times as long as the unbonding period (superfluid accepts any duration >= the unbonding
+		// period; an undelegation's unstaking marker must still last the unbonding period, not the lock's duration)
+		dur := w.U
+		if op.X > 1 {
+			dur = time.Duration(op.X) * w.U
+		}
+		r := core.Deliver(a, ctx, &lockuptypes.MsgLockTokens{Owner: core.Acc(op.A).String(), Duration: dur, Coins: sdk.NewCoins(w.shareCoin(amt))})
 		if !r.OK() {
 			return ctx, errClass(r.Err)
 		}
@@ -665,7 +674,7 @@ func (w *World) Apply(ctx sdk.Context, l *Ledger, op Op, fail func(a, s, d strin
 		mustUnmarshal(r.Res, &resp)
 		if i := l.find(resp.ID); i >= 0 {
 			k := &l.Locks[i]
-			if k.Owner != op.A || k.Unlocking || k.Dur != w.U || k.D != 0 {
+			if k.Owner != op.A || k.Unlocking || k.Dur != dur || k.D != 0 {
 				fail("lock.response-names-foreign-lock", "", fmt.Sprintf("response id %d is lock %+v", resp.ID, *k))
 			}
 			k.Amt = k.Amt.Add(amt)
@@ -681,7 +690,10 @@ func (w *World) Apply(ctx sdk.Context, l *Ledger, op Op, fail func(a, s, d strin
 				fail("lock.ids-are-consecutive", "", fmt.Sprintf("response id %d, expected %d", resp.ID, l.NextLockID))
 			}
 			l.NextLockID = resp.ID + 1
-			l.Locks = append(l.Locks, LockRec{ID: resp.ID, Owner: op.A, Amt: amt, Dur: w.U})
+			l.Locks = append(l.Locks, LockRec{ID: resp.ID, Owner: op.A, Amt: amt, Dur: dur})
+			if op.X > 1 {
+				w.Vac["lock_longer_than_unbonding_period"]++
+			}
 		}
 	case "del":
 		if op.P >= len(l.Locks) {
